@@ -3,6 +3,15 @@ XML export+import / refresh on a real synthetic topology vs the Lean model (lean
 Side streams (`+ireg`): about a third of the registrations go through hwloc_internal_cpukinds_register directly (op
 `ireg`: flags 0 as the discovery backends pass, OVERWRITE, invalid; no ranking afterwards) vs `internalRegister`.
 
+Disallowed PUs: about half of the episodes load the topology with HWLOC_TOPOLOGY_FLAG_INCLUDE_DISALLOWED (op `initd`) and call
+hwloc_topology_allow (op `allow`: CUSTOM with sets chosen against the root / allowed cpusets and the current kinds, ALL,
+invalid) before and between registrations, restricts, dups and XML round trips, so that kinds are registered over PUs that
+are in the topology but not allowed.  Model: lean/Hw/Attr/CpuKindsAllowed.lean (restrict is refused iff the set misses the
+ALLOWED cpuset, kinds are cut by the new ROOT cpuset, `allow` never touches the kinds); every observation carries
+allowed=<hex> dis=<flag>.  Coverage counters: dis_episodes, allow_*, reg_over_disallowed, restrict_ok_strict,
+restrict_keeps_disallowed_kind_pu (a successful restrict after which some kind still owns a disallowed PU),
+restrict_einval_misses_allowed, dup_strict / xml_strict (allowed strictly inside root, kinds present), by_disallowed_idx.
+
 Observation after every op (public API only, exact comparison): errno class, get_nr, and for every kind
 get_info's cpuset (hex mask), efficiency, info pairs in order; plus the private forced_efficiency (exact),
 and get_by_cpuset / get_nr / get_info answers for generated queries.
@@ -139,7 +148,7 @@ def shrink(binp, workdir, ops, libxml):
     d = os.path.join(workdir, "shrink")
     strat = strat_of(ops)
     env_head = [o for o in ops[:1] if o.startswith("env ")]
-    inits = [i for i, o in enumerate(ops) if o.startswith("init ")]
+    inits = [i for i, o in enumerate(ops) if o.startswith(("init ", "initd "))]
     if inits:
         head, body = env_head + [ops[inits[-1]]], ops[inits[-1] + 1:]
     else:
@@ -157,7 +166,7 @@ def shrink(binp, workdir, ops, libxml):
         if not fails(body):
             return ops
         keep = [o for o in body]
-        return head + ddmin(keep, lambda sub: any(x.startswith("init ") for x in sub[:1]) and fails(sub))
+        return head + ddmin(keep, lambda sub: any(x.startswith(("init ", "initd ")) for x in sub[:1]) and fails(sub))
     return head + ddmin(body, fails)
 
 
@@ -252,7 +261,7 @@ def run_engine(tier, seed, corpus_dir=None):
             stats[k] = stats.get(k, 0) + v
         for o, c in zip(r["ops"], r["c"]):
             t = o.split()
-            if t[0] in ("env", "init"):
+            if t[0] in ("env", "init", "initd"):
                 continue
             distinct.add(hashlib.md5((t[0] + "|" + c.partition(" ;; ")[0]).encode()).digest()[:8])
     for r in results:
@@ -289,7 +298,10 @@ def run_engine(tier, seed, corpus_dir=None):
         sample = ["%s -> %s" % (o, c) for o, c in list(zip(results[0]["ops"], results[0]["c"]))[40:50]]
     shutil.rmtree(workdir, ignore_errors=True)
     must_hit = ["split", "merge", "newtail", "restrict_removed", "xml", "dup", "by_idx", "by_exdev", "by_enoent",
-                "by_einval", "ranked", "unranked", "reg_einval", "outside_root"]
+                "by_einval", "ranked", "unranked", "reg_einval", "outside_root",
+                "dis_episodes", "allow_ok", "allow_einval", "allow_strict", "reg_over_disallowed", "restrict_ok_strict",
+                "restrict_keeps_disallowed_kind_pu", "restrict_einval_misses_allowed", "restrict_removed_strict",
+                "dup_strict", "xml_strict", "by_disallowed_idx"]
     missed = [b for b in must_hit if not stats.get(b)]
     return {"evaluations": total, "distinct_nontrivial": len(distinct), "benign_repr_diffs": benign,
             "distribution": stats, "per_strategy_ops": per_strategy, "must_hit_missed": missed,
@@ -297,7 +309,8 @@ def run_engine(tier, seed, corpus_dir=None):
                 stats.get("regskip", 0), SWITCH),
             "known_hits": known_hits, "candidate_findings": candidate_findings,
             "problems": problems, "samples": sample,
-            "rule": "episodes of 8-48 public calls on a synthetic topology of 8/12/16 PUs (register over subsets of a 16(+2)-PU "
+            "rule": "episodes of 8-48 public calls on a synthetic topology of 8/12/16 PUs, half of them loaded with INCLUDE_DISALLOWED "
+                    "and hwloc_topology_allow (CUSTOM subsets / ALL / invalid) before and between the other calls (register over subsets of a 16(+2)-PU "
                     "universe incl. EQUAL/CONTAINS/INCLUDED/INTERSECTS shapes, NULL/empty sets, non-zero flags; restrict; dup; XML "
                     "round trip with libxml and nolibxml; refresh), 2-4 get_by_cpuset queries after each; a case is one op line "
                     "applied to the current topology; distinct = distinct (op kind, public observation) pairs"}
